@@ -41,6 +41,11 @@ package fasthttp
 //@   inv[crlf-free] crlffree(F, len(F))
 //@   skip parseFirstLine parseHeaders parse: these store bytes taken from a parsed message, not setter input (C01/C08)
 //@   skip CopyTo copyTo: copies fields of another header that satisfies the same invariant (not re-proved here)
+//   Encapsulation: no other function assigns these fields, except the three client entry points that store the
+//   client's configured Name (or the default) as User-Agent -- application configuration, not a setter argument, so
+//   outside the quantifier of C05. A new direct assignment elsewhere (bypassing the neutralising setters) fails
+//   `lemma:encapsulation_RequestHeader`.
+//@   foreign HostClient.doNonNilReqResp pipelineConnClient.DoDeadline pipelineConnClient.Do: store Client.Name / the default user agent (configuration, not setter input)
 
 //@ typeinv ResponseHeader
 //@   property C05
@@ -53,6 +58,7 @@ package fasthttp
 //@   property C05
 //@   fields contentType protocol
 //@   inv[crlf-free] crlffree(F, len(F))
+//@   foreign header.copyTo: copies the fields of another header that satisfies the same invariant (not re-proved here)
 
 // Storage layer of the multi-valued header part. The bodies work on []argsKV and are not verified here (trusted
 // contracts): what matters for C05 is the precondition every caller has to establish.
